@@ -155,6 +155,7 @@ func (d *driver) run() int {
 			specs = append(specs, runSpec{pe: pe, seed: s, name: name})
 		}
 	}
+	_ = os.RemoveAll(witnessDir(d.prop))
 	results := d.execAll(specs)
 
 	// aggregate
@@ -380,6 +381,12 @@ func (d *driver) analyze(res *runResult) {
 	}
 	seen := map[string]bool{}
 	for _, rr := range res.races {
+		if rr.sig == "?|?" {
+			// neither access is in the library: a race of the harness itself
+			res.rep.Stats["harness-only-race-reports"]++
+			fmt.Fprintf(os.Stderr, "check: harness-only race report in %s (ignored for the verdict):\n%s\n", res.spec.name, firstLines(rr.text, 12))
+			continue
+		}
 		if seen[rr.sig] {
 			continue
 		}
